@@ -656,13 +656,105 @@ fn reg_partition_case(i: usize, seed: u64, acc: &mut Acc) {
   }
 }
 
+/// Follow-up build that meets stale package metadata. A fresh build restarts
+/// with cache busting, a follow-up build (the graph already has roots)
+/// refreshes the package in place and retries the requirement where it stood.
+/// The family is chosen so that both give the same selections by
+/// construction: the version that only the refreshed metadata lists (1.2.0)
+/// is never the best match of a requirement the stale metadata can already
+/// satisfy (1.3.0 is in both).
+fn stale_metadata_case(i: usize, seed: u64, acc: &mut Acc) {
+  use crate::reg::*;
+  let mut rng = Rng::new(seed).fork(i as u64 ^ 0xC19_5);
+  let ver = |v: &str| RVer {
+    version: v.to_string(),
+    yanked: false,
+    date: 0,
+    exports: Exports::Map(vec![(".".into(), "./mod.ts".into())]),
+    files: vec![RFile { path: "/mod.ts".into(), imports: vec![] }],
+    module_graph2: None,
+    module_graph1: None,
+  };
+  let needs_refresh = ["1.2.0", "~1.2", "~1.2.0", "=1.2.0"];
+  let satisfiable = ["^1", "*", "1", "^1.0.0", "1.3.0", "1.0.0", "~1.3", "^1.1"];
+  let mut reqs: Vec<&str> = vec![*rng.pick(&needs_refresh)];
+  for _ in 0..rng.range(1, 3) {
+    reqs.push(*rng.pick(&satisfiable));
+  }
+  if rng.coin() {
+    reqs.push(*rng.pick(&needs_refresh));
+  }
+  rng.shuffle(&mut reqs);
+  reqs.dedup();
+  let second: Vec<Imp> = reqs
+    .iter()
+    .map(|r| if rng.chance(1, 6) { Imp::Dynamic(format!("jsr:@s/a@{}", r)) } else { Imp::Static(format!("jsr:@s/a@{}", r)) })
+    .collect();
+  let first: Vec<Imp> = if rng.coin() { vec![Imp::Static("jsr:@s/b@1".into())] } else { vec![] };
+  let w = RegWorld {
+    pkgs: vec![
+      RPkg { name: "@s/a".into(), versions: vec![ver("1.0.0"), ver("1.3.0")] },
+      RPkg { name: "@s/b".into(), versions: vec![ver("1.0.0")] },
+    ],
+    app: vec![("file:///first.ts".into(), first), ("file:///second.ts".into(), second)],
+    roots: vec!["file:///first.ts".into(), "file:///second.ts".into()],
+    reload_only_versions: vec![("@s/a".into(), ver("1.2.0"))],
+    ..Default::default()
+  };
+  let world = w.to_world();
+  let kind = GraphKind::All;
+  let build = |steps: &[Vec<String>]| -> Result<ModuleGraph, PanicInfo> {
+    let loader = ScriptedLoader::new(&world);
+    let mut graph = ModuleGraph::new(kind);
+    let cfg = BuildCfg { kind, npm: Some(ScriptedNpmResolver::default()), version_resolver: Some(w.version_resolver()), ..Default::default() };
+    catch(|| {
+      for st in steps {
+        run_build(&mut graph, st, &[], &loader, &cfg, None, Exec::Inline, None);
+      }
+    })?;
+    Ok(graph)
+  };
+  let ctx = json!({"stale_metadata_world": w.to_json(), "second_build_requirements": reqs});
+  acc.eval();
+  let (mut at_once, mut incr) = match (
+    build(&[vec!["file:///first.ts".into(), "file:///second.ts".into()]]),
+    build(&[vec!["file:///first.ts".into()], vec!["file:///second.ts".into()]]),
+  ) {
+    (Ok(x), Ok(y)) => (x, y),
+    (Err(p), _) | (_, Err(p)) => {
+      acc.violation(format!("panic/{}", p.signature()), p.message, ctx);
+      return;
+    }
+  };
+  acc.count("stale_metadata_follow_up_builds_compared");
+  acc.nontrivial(hash64(&ctx.to_string()));
+  let (pa, pi) = (packages_view(&mut at_once), packages_view(&mut incr));
+  if pa["mappings"] != pi["mappings"] {
+    acc.violation(
+      "registry/follow-up-build-with-stale-metadata/selections-differ",
+      format!("at once {} vs follow-up {}", pa["mappings"], pi["mappings"]),
+      json!({"ctx": ctx}),
+    );
+  }
+  let (va, vi) = (entry_views(&at_once), entry_views(&incr));
+  if va != vi {
+    let differing: Vec<&String> = va.keys().chain(vi.keys()).filter(|k| va.get(*k) != vi.get(*k)).collect();
+    acc.violation(
+      "registry/follow-up-build-with-stale-metadata/entries-differ",
+      format!("{:?}", differing.iter().take(6).collect::<Vec<_>>()),
+      json!({"ctx": ctx}),
+    );
+  }
+}
+
 pub fn run(tier: Tier, seed: u64) -> i32 {
   let mut rep = Report::new("C19", tier, seed);
   rep.rule = "two workloads on the real builder. (1) every order-preserving partition of a generated world's root list into 2-3 successive build() calls on one graph \
     vs the single-call build: entries (serialised module JSON; errors by class+message), redirects, roots; then build() again with a random subset of known roots: serialised graph unchanged and zero loader calls. \
     (2) histories of 1-4 steps: random edit script on loaded JS/TS modules (add/remove import, break/unbreak syntax, delete/restore) then reload(edited specifiers), compared with a from-scratch build of the edited sources: \
     every entry of the from-scratch graph must be identical in the reloaded graph, its redirects present, and entries outside it unchanged. \
-    (3) registry worlds: two generated registry worlds over disjoint package scopes (so that first-come version unification cannot differ; no stale metadata) sharing npm requirements, built at once and in two successive builds in both orders: entries, redirects and the package table (mappings, packages_with_deps, used yanked versions) must be equal. non-trivial = >= 2 builds or >= 1 effective edit; distinct by (world, partition | history)"
+    (3) registry worlds: two generated registry worlds over disjoint package scopes (so that first-come version unification cannot differ; no stale metadata) sharing npm requirements, built at once and in two successive builds in both orders: entries, redirects and the package table (mappings, packages_with_deps, used yanked versions) must be equal. \
+    (4) follow-up builds that meet stale package metadata (a version only the refreshed meta.json lists, chosen so that it is never the best match of a requirement the stale metadata already satisfies): the requirement is refreshed and retried in place, and selections and entries must equal the at-once build (which restarts with cache busting). non-trivial = >= 2 builds or >= 1 effective edit; distinct by (world, partition | history)"
     .into();
   rep.assumptions = vec![
     "error entries are compared by class and message; a referrer is only required not to be lost (the first requester may differ between histories)".into(),
@@ -679,6 +771,10 @@ pub fn run(tier: Tier, seed: u64) -> i32 {
   let n3 = tier.pick(3000, 200_000);
   let acc3 = par_run(n3, |i, acc| reg_partition_case(i, seed, acc));
   acc.merge(acc3);
+  let n4 = tier.pick(2000, 100_000);
+  let acc4 = par_run(n4, |i, acc| stale_metadata_case(i, seed, acc));
+  acc.merge(acc4);
+  rep.floor("stale_metadata_follow_up_builds_compared", tier.pick(1500, 80_000));
   rep.floor("registry_partitions_compared", tier.pick(2000, 100_000));
   rep.floor("registry_partitions_with_npm_dependencies_of_packages", tier.pick(200, 10_000));
   rep.finish(acc)
